@@ -235,11 +235,17 @@ one_call (int ci)
         int faulted = o.reqs >= f1;
         const char *why = 0;
         int maps = 0;
-        int munmap_failed = 0;
-        /* which requests did we fail: a failed munmap legitimately leaves its mapping */
+        int munmap_failed = 0, only_optional_failed = 1;
+        /* which requests did we fail: a failed munmap legitimately leaves its mapping; a failed huge-page attempt ('H')
+           is the one request the library documents as optional */
         for (long q = 0; q < (long) strlen (o.log); q++)
-          if ((q + 1 == f1 || q + 1 == f2 || q + 1 == f3) && o.log[q] == 'U')
-            munmap_failed = 1;
+          if (q + 1 == f1 || q + 1 == f2 || q + 1 == f3)
+            {
+              if (o.log[q] == 'U')
+                munmap_failed = 1;
+              if (o.log[q] != 'H' && o.log[q] != 'f')     /* free is logged as a request but cannot fail */
+                only_optional_failed = 0;
+            }
         if (o.fatal)
           why = "crash";
         else if (!faulted)
@@ -256,7 +262,9 @@ one_call (int ci)
           }
         else if (strcmp (o.res, ref.res))
           why = "a hash that differs from the unfaulted result was returned";
-        /* success despite the fault is only legitimate through a documented fallback (huge-page attempt) or a fault after the result was complete */
+        else if (!only_optional_failed)
+          why = "a result was returned although a malloc/realloc/mmap/munmap request of the call failed";
+        /* success despite the fault is only legitimate through the documented fallback (huge-page attempt) */
         if (!why && o.scratch_dirty)
           why = "scratch memory not erased";
         if (!why)
